@@ -1,4 +1,4 @@
-import Netpoll.Conn.Closed
+import Netpoll.Conn.ClosedLemmas
 /-
 C12 - a closed connection answers with errors, not panics or hangs.
 Theorems over the post-close model `Netpoll.Conn.Closed` for EVERY state of the buffers, every size and
@@ -9,12 +9,6 @@ open Netpoll.Buf Netpoll.Conn.Closed
 
 variable {α : Type} [DecidableEq α]
 
-/-- the Writer methods of a connection (everything guarded by `IsActive`) -/
-def isWriter : Meth α → Bool
-  | .malloc _ | .flush | .mallocAck _ | .appendW | .writeString _ | .writeBinary _ | .writeDirect _ _
-  | .writeByte _ | .write _ => true
-  | _ => false
-
 /-- After any close, every Writer call returns ErrConnClosed and changes nothing - whatever is pending. -/
 theorem C12_writer_closed (cfg : Cfg) (c : CC α) (m : Meth α) (hc : c.closing ≠ 0) (hw : isWriter m = true) :
     c.call cfg m = (c, .err .connClosed) := by
@@ -22,17 +16,6 @@ theorem C12_writer_closed (cfg : Cfg) (c : CC α) (m : Meth α) (hc : c.closing 
   cases m <;> simp_all [isWriter, CC.call]
 
 example : (1 : Nat) ≠ 0 ∧ isWriter (Meth.flush : Meth Nat) = true := by decide
-
-/-- the error class a reader gets when it needs more than is buffered: EOF after a peer close
-(`closing = poller`), ErrConnClosed after a local close. -/
-def shortErr (c : CC α) : Err := if c.closing = 2 then .eof else .connClosed
-
-omit [DecidableEq α] in
-theorem waitRead_short (c : CC α) (n : Int) (hc : c.closing = 1 ∨ c.closing = 2) (hn : (c.input.length : Int) < n) :
-    c.waitRead n = some (.err (shortErr c)) := by
-  unfold CC.waitRead shortErr
-  have : ¬ n ≤ (c.input.length : Int) := by omega
-  rcases hc with h | h <;> simp [this, h]
 
 /-- A Reader call that needs more bytes than are still buffered fails with the close error, consumes
 nothing and changes nothing. -/
@@ -66,19 +49,6 @@ theorem C12_reader_buffered (cfg : Cfg) (c : CC α) (n : Int) (hn : n ≤ (c.inp
     c.call cfg (.readBinary n) = ofBuf (c.input.readBinary n) c setIn := by
   have h : c.waitRead n = none := by simp [CC.waitRead, hn]
   simp [CC.call, h]
-
-omit [DecidableEq α] in
-theorem waitRead_cases (c : CC α) (n : Int) (hc : c.closing = 1 ∨ c.closing = 2) :
-    c.waitRead n = none ∨ c.waitRead n = some (.err (shortErr c)) := by
-  by_cases h : n ≤ (c.input.length : Int)
-  · left; simp [CC.waitRead, h]
-  · right; exact waitRead_short c n hc (by omega)
-
-omit [DecidableEq α] in
-theorem ofBuf_snd (r : Option (LB α × Res α)) (c : CC α) (f : CC α → LB α → CC α) :
-    (ofBuf r c f).2 ≠ .blocks ∧ ((ofBuf r c f).2 = .panic → r = none) := by
-  unfold ofBuf
-  split <;> simp_all
 
 /-- No call on a closed connection waits. -/
 theorem C12_never_blocks (cfg : Cfg) (c : CC α) (m : Meth α) (hc : c.closing = 1 ∨ c.closing = 2) :
@@ -133,17 +103,6 @@ theorem C12_close_idempotent (cfg : Cfg) (c : CC α) :
     (c.call cfg .close).2 = .ok .unit ∧ c1.call cfg .close = (c1, .ok .unit) := by
   simp [CC.call, CC.teardown, CC.closeBuffer]
   split <;> simp
-
-omit [DecidableEq α] in
-theorem waitRead_recycled (c : CC α) (n : Int) (hi : c.input = closedLB) (h : c.waitRead n = none) : n ≤ 0 := by
-  unfold CC.waitRead at h
-  by_cases hn : n ≤ 0
-  · exact hn
-  · have : ¬ n ≤ ((c.input.length : Nat) : Int) := by simp [hi, closedLB]; omega
-    simp [this] at h
-    split at h
-    · simp at h
-    · split at h <;> simp at h
 
 /-- On recycled buffers (what the finalizer leaves when a callback is set or nothing was buffered) no
 Reader / Writer / Connection method dereferences the nil node chain: nothing panics. -/
